@@ -827,6 +827,22 @@ def _run_timed(ctx):
                 continue
             _reject(ctx, t, x, ValueError, TW_EXTRA, may_ignore=closed)
             out.label("earlier-timestamp")
+            if not closed:
+                # closing at a time before the last observation (or at NaN) is refused too - and the tally stays open
+                for bad_end in (t, math.nan):
+                    before = _snapshot(stat, TW_EXTRA)
+                    try:
+                        stat.end_observations(bad_end)
+                        out.fail("reject:accepted", {"end_observations": repr(bad_end), "last": _enc(last)})
+                    except (ValueError, TypeError):
+                        pass
+                    except Exception as e:                        # noqa: BLE001
+                        out.fail("reject:wrong-exception", {"end_observations": repr(bad_end), "error": repr(e)})
+                    after = _snapshot(stat, TW_EXTRA)
+                    if before != after:
+                        out.fail("reject:state-changed", {"end_observations": repr(bad_end), "before": before,
+                                                          "after": after})
+                out.label("rejected-closing")
         elif name == "init":
             try:
                 stat.initialize()
